@@ -22,6 +22,7 @@ import (
 	"reflect"
 
 	"github.com/goplus/xgo/ast"
+	xtoken "github.com/goplus/xgo/token"
 )
 
 // -----------------------------------------------------------------------------
@@ -108,14 +109,20 @@ func formatExpr(ctx *formatCtx, expr ast.Expr, ref *ast.Expr) {
 		formatExpr(ctx, v.Value, &v.Value)
 	case *ast.FuncLit:
 		formatFuncType(ctx, v.Type)
-		formatBlockStmt(ctx, v.Body)
+		formatFuncBody(ctx, nil, v.Type, v.Body)
 	case *ast.TypeAssertExpr:
 		formatExpr(ctx, v.X, &v.X)
 		formatType(ctx, v.Type, &v.Type)
 	case *ast.LambdaExpr:
+		old := ctx.enterBlock()
+		ctx.insertLambdaParams(v.Lhs)
 		formatExprs(ctx, v.Rhs)
+		ctx.leaveBlock(old)
 	case *ast.LambdaExpr2:
+		old := ctx.enterBlock()
+		ctx.insertLambdaParams(v.Lhs)
 		formatBlockStmt(ctx, v.Body)
+		ctx.leaveBlock(old)
 	case *ast.RangeExpr:
 		formatRangeExpr(ctx, v)
 	case *ast.ComprehensionExpr:
@@ -154,6 +161,7 @@ func formatForPhrases(ctx *formatCtx, fors []*ast.ForPhrase) {
 
 func formatForPhrase(ctx *formatCtx, v *ast.ForPhrase) {
 	formatExpr(ctx, v.X, &v.X)
+	ctx.insertLambdaParams([]*ast.Ident{v.Key, v.Value})
 	formatStmt(ctx, v.Init)
 	formatExpr(ctx, v.Cond, &v.Cond)
 }
@@ -226,14 +234,18 @@ func formatStmt(ctx *formatCtx, stmt ast.Stmt) {
 		formatIfStmt(ctx, v)
 	case *ast.CaseClause:
 		formatExprs(ctx, v.List)
+		old := ctx.enterBlock() // each clause is an implicit block
 		formatStmts(ctx, v.Body)
+		ctx.leaveBlock(old)
 	case *ast.SwitchStmt:
 		formatSwitchStmt(ctx, v)
 	case *ast.TypeSwitchStmt:
 		formatTypeSwitchStmt(ctx, v)
 	case *ast.CommClause:
+		old := ctx.enterBlock() // each clause is an implicit block
 		formatStmt(ctx, v.Comm)
 		formatStmts(ctx, v.Body)
+		ctx.leaveBlock(old)
 	case *ast.SelectStmt:
 		formatBlockStmt(ctx, v.Body)
 	case *ast.DeclStmt:
@@ -270,6 +282,9 @@ func formatExprStmt(ctx *formatCtx, v *ast.ExprStmt) {
 func formatAssignStmt(ctx *formatCtx, v *ast.AssignStmt) {
 	formatExprs(ctx, v.Lhs)
 	formatExprs(ctx, v.Rhs)
+	if v.Tok == xtoken.DEFINE { // the new variables are in scope after the statement
+		ctx.insertIdents(v.Lhs...)
+	}
 }
 
 func formatSwitchStmt(ctx *formatCtx, v *ast.SwitchStmt) {
@@ -307,6 +322,9 @@ func formatRangeStmt(ctx *formatCtx, v *ast.RangeStmt) {
 	formatExpr(ctx, v.Key, &v.Key)
 	formatExpr(ctx, v.Value, &v.Value)
 	formatExpr(ctx, v.X, &v.X)
+	if v.Tok == xtoken.DEFINE { // the iteration variables are in scope in the body only
+		ctx.insertIdents(v.Key, v.Value)
+	}
 	formatBlockStmt(ctx, v.Body)
 }
 
